@@ -30,13 +30,17 @@ Fixpoint sp_offer (m : mac) (hist : list (mac * option ip4)) : option ip4 :=
   | (m', o) :: r => if m' =? m then o else sp_offer m r
   end.
 
-(* "the probing MAC holds a different outstanding DHCP offer and the probed address lies in the home LAN" *)
-Definition sp_probe_reject_due (c : cfg) (hist : list (mac * option ip4)) (p : arp_pkt) : bool :=
+(* "the probing MAC holds a different outstanding DHCP offer and the probed address lies in the home LAN"
+   (offer: the outstanding IPv4 offer of the probing MAC, if any) *)
+Definition sp_reject_cond (c : cfg) (offer : option ip4) (p : arp_pkt) : bool :=
   sp_is_probe p && negb (link_local (ptip p)) &&
-  match sp_offer (psmac p) hist with
+  match offer with
   | Some o => negb (o =? ptip p) && in_lan c (ptip p)
   | None => false
   end.
+
+Definition sp_probe_reject_due (c : cfg) (hist : list (mac * option ip4)) (p : arp_pkt) : bool :=
+  sp_reject_cond c (sp_offer (psmac p) hist) p.
 
 Definition sp_forged (c : cfg) (f : frame) : bool :=
   (fsip f =? router_ip c) && (fsmac f =? host_mac c).
